@@ -543,7 +543,7 @@ func growsWithRound(v ssa.Value, base, delta string) bool {
 				return false
 			}
 			p, ok := stripConv(r).(*ssa.Parameter)
-			return ok && p.Name() == "round"
+			return ok && canonParamName(p) == "round"
 		}
 		return one(m.X, m.Y) || one(m.Y, m.X)
 	}
